@@ -91,6 +91,10 @@ class C29(Check):
             for i, n, v in case.get("preset", []):
                 setattr(devs[i], n, v)
             sg = ProcessSyncGroup(c29_devs.DummyEC(), devs)
+            # a SECOND group of the same make is alive in this process (constructed before any variable is touched); it gets other
+            # values for the same variables right after the first group's: the two must not share storage
+            devs_b = [c29_devs.CLASSES[d]() for d in case["devs"]] if len(case["devs"]) % 2 else None
+            sg_b = ProcessSyncGroup(c29_devs.DummyEC(), devs_b) if devs_b else None
         except Exception as e:      # noqa
             return Err(6, f"constructing the ProcessSyncGroup raised {type(e).__name__}: {e}")
         allv = [(i, n, f) for i, d in enumerate(case["devs"]) for n, f in c29_devs.variables(c29_devs.CLASSES[d])]
@@ -99,6 +103,18 @@ class C29(Check):
                 setattr(devs[i], n, v)
         except Exception as e:      # noqa
             return Err(5, f"writing a device variable in the parent raised {type(e).__name__}: {e}")
+        other = None
+        if sg_b is not None:
+            fm = {(j, nm): f_ for j, nm, f_ in allv}
+            other = []
+            try:
+                for i, n, v in case["parent"]:
+                    f_ = fm[(i, n)]
+                    v2 = (not v) if isinstance(v, bool) else (v ^ 1) if isinstance(v, int) and f_ in ("B", "H", "I", "Q") else v
+                    setattr(devs_b[i], n, v2)
+                    other.append([i, n, v2])
+            except Exception as e:      # noqa
+                return Err(5, f"writing a device variable of the second group raised {type(e).__name__}: {e}")
         # writes that struct refuses (a value outside the format) must leave the shared storage as it is
         refused = 0
         for i, n, v in case["parent"]:
@@ -156,6 +172,11 @@ class C29(Check):
             back3 = [getattr(devs[i], nm) for i, nm, f in allv]
         except Exception as e:      # noqa
             return Err(5, f"reading a device variable in the parent raised {type(e).__name__}: {e}")
+        if other is not None:
+            for i, nm, v2 in other:
+                got = getattr(devs_b[i], nm)
+                if got != v2 and not (isinstance(v2, float) and abs(got - v2) < 1e-4):
+                    return Err(5, f"the second group's variable {i}.{nm} reads {got!r}, it was assigned {v2!r} (two ProcessSyncGroups of the same make alive in one process)")
         o = {"child_first": res[1][:n], "child_second": res[1][n:], "parent_back": back, "child_third": res3[1], "parent_third": back3, "layout": layout,
              "size": len(sg.properties), "wkc_pos": sg.__dict__.get("wkc_errors")}
         case["_o"] = o
